@@ -83,6 +83,30 @@ def gen_dims(rng, k=None, N=None, max_extent=5, multi_axis=False, max_hi=3):
     return dict(dense=dense, commons=commons, extents=extents, modes=modes, N=N)
 
 
+def gen_wide_dims(rng, big=False):
+    """1 or 2 one-axis dims whose extent (or product of extents) straddles 2^8 (big: 2^16); rows concentrate on a
+    few categories at both ends of the range so that high-numbered cells hold several rows"""
+    B = 65536 if big else 256
+    k = rng.choice([1, 1, 2])
+    if k == 1:
+        extents = [rng.choice([B // 2 + 1, B // 2 + 72, B - 1, B, B + 1, B + 44])]
+    else:
+        a = rng.choice([2, 3, 16, 17])
+        extents = [a, B // a + rng.choice([0, 1, 2])]
+        rng.shuffle(extents)
+    N = rng.choice([24, 60]) if big else rng.choice([60, 200, 400])
+    dense, commons, modes = [], [], []
+    for e in extents:
+        if e <= 20:
+            d = gen_dense(rng, N, e)
+        else:
+            pool = sorted(set([0, 1, e - 1, e - 2, e // 2, e // 2 + 1] + [rng.randrange(e) for _ in range(max(2, N // 8))]))
+            d = np.array([rng.choice(pool) for _ in range(N)], dtype=np.int64)
+        c, mode = pick_common(rng, d, e)
+        dense.append(d); commons.append(c); modes.append(mode)
+    return dict(dense=dense, commons=commons, extents=extents, modes=modes, N=N)
+
+
 def dims_to_model(idx_list):
     """one-axis iindexes -> model dims (entries in dict order)"""
     out = []
